@@ -24,6 +24,14 @@ func (w *World) Step(dt int64, txs ...*TxRecord) *BlockRecord {
 	return w.RunBlock(dt, all...)
 }
 
+// FeederStep runs one block with the feeder's price transaction followed by another transaction
+// signed by the same feeder (messages gated on the price-feeder role).
+func (w *World) FeederStep(dt int64, msgs ...sdk.Msg) *BlockRecord {
+	ft := w.FeedTx()
+	et := w.Tx(w.Feeder, msgs...)
+	return w.RunBlock(dt, ft, et)
+}
+
 // GovExec executes authority-gated messages the way production does: a real proposal, a real
 // vote by the staked voter, and the gov end-blocker after the voting period. Returns true if the
 // proposal passed and its messages executed.
